@@ -41,8 +41,11 @@ func gen(t *rapid.T) Case {
 	if len(data) > 0 {
 		r.Data = data
 	}
-	o := progen.Opts{MaxPkgs: 2, MaxIfaces: 3, Avoid: map[string]bool{"srcpkg:mock": true, "pkg:mockp": true, "ident:case-collision": true, "tparamname:mock": true}}
+	o := progen.Opts{MaxPkgs: 2, MaxIfaces: 3, Avoid: map[string]bool{"srcpkg:mock": true, "pkg:mockp": true, "tparamname:mock": true}}
 	mod := progen.Gen(t, o)
+	if rapid.Bool().Draw(t, "template-locals") {
+		progen.HostileLocals(t, &mod, "matryer")
+	}
 	r.GenIfaceData(t, &mod)
 	return Case{Mod: mod, R: r, Seed: rapid.Uint64Range(1, 1<<62).Draw(t, "innerseed"), Checks: vh.Pick(150, 400)}
 }
